@@ -43,10 +43,12 @@ def clip_face_area(points, i, j, big=None):
     P = np.asarray(points, dtype=float)
     if big is None:
         big = 1e3 * float(np.abs(P).max())   # the start square must dwarf the point set whatever its units
+    mid = (P[i] + P[j]) / 2
+    P = P - mid                    # work relative to the face: far from the origin the squared norms below would cancel
+    mid = np.zeros(3)
     n = P[j] - P[i]
     dist = np.linalg.norm(n)
     n = n / dist
-    mid = (P[i] + P[j]) / 2
     a = np.cross(n, [1.0, 0, 0] if abs(n[0]) < 0.9 else [0, 1.0, 0])
     a /= np.linalg.norm(a)
     b = np.cross(n, a)
